@@ -49,13 +49,21 @@ def pool_run(make_run, exec_run, classify, budget_s, start=0, max_runs=10**9, st
 
 # ---------------------------------------------------------------------------------- C14
 
+C14_VARIANTS = {}  # driver name -> source path (layout variants of trapio.dora)
+
+
 def c14_make_run(s, i):
     wl = tb.stream(s, "C14", i, "workload")
     cfg = tb.stream(s, "C14", i, "config")
     script = mt.generate(wl)
-    exp = mt.expected(script)
     gc = cfg.choice(["swiper", "swiper", "copy", "sweep"])
     cg = cfg.choice(["cannon", "boots"])
+    driver = "trapio"
+    if C14_VARIANTS and cfg.random() < 0.5:
+        # layout variant (only built for the generational collector)
+        driver = cfg.choice(sorted(C14_VARIANTS))
+        gc = "swiper"
+    exp = mt.expected(script, C14_VARIANTS.get(driver))
     mode = cfg.choices(["clean", "recoverable", "fatal"], [3, 5, 2])[0]
     sink = cfg.choice(["pipe", "file"])
     io = None
@@ -71,8 +79,8 @@ def c14_make_run(s, i):
         total = len(exp["stdout"])
         at = cfg.randint(0, total + 5) if cfg.random() < 0.7 else cfg.choice([0, 1, 1023, 1024, 1025, total])
         io = "seed=%d,fatal=%s@%d" % (cfg.getrandbits(40), cfg.choice(["ENOSPC", "EPIPE", "EAGAIN", "EIO"]), at)
-    return {"index": i, "exe": ["trapio", gc, cg, "real"], "argv": script, "dora_flags": "--max-heap-size=16M", "mode": mode, "sink": sink, "io": io,
-            "timeout": 60, "tags": {"gc": gc, "codegen": cg, "mode": mode, "sink": sink, "trap": mt.parse(script)[2], "thread": mt.parse(script)[0]}}
+    return {"index": i, "exe": [driver, gc, cg, "real"], "argv": script, "dora_flags": "--max-heap-size=16M", "mode": mode, "sink": sink, "io": io,
+            "timeout": 60, "tags": {"gc": gc, "codegen": cg, "layout": driver, "mode": mode, "sink": sink, "trap": mt.parse(script)[2], "thread": mt.parse(script)[0]}}
 
 
 def c14_execute(r, exes):
@@ -116,7 +124,9 @@ def c14_execute(r, exes):
 
 
 def c14_classify(r, res):
-    exp = mt.expected(r["argv"])
+    src = C14_VARIANTS.get(r["exe"][0])
+    srcname = os.path.basename(src) if src else "trapio.dora"
+    exp = mt.expected(r["argv"], src)
     if res["timeout"]:
         return ("timeout", "no termination within %ds" % r["timeout"])
     out, err, rc = res["stdout"], res["stderr"], res["rc"]
@@ -147,12 +157,12 @@ def c14_classify(r, res):
         got = [(f, l) for (f, _, l) in frames[:len(want)]]
         if got != want:
             return ("trace", "stack trace %r, expected %r" % (got, want))
-        if any(not p.endswith("trapio.dora") for (_, p, _) in frames[:len(want)]):
+        if any(not p.endswith(srcname) for (_, p, _) in frames[:len(want)]):
             return ("trace", "stack trace names a wrong file")
     if exp.get("frames_after_std") is not None:
         want = exp["frames_after_std"]
         k = 0
-        while k < len(frames) and not frames[k][1].endswith("trapio.dora"):
+        while k < len(frames) and not frames[k][1].endswith(srcname):
             k += 1
         got = [(f, l) for (f, _, l) in frames[k:k + len(want)]]
         if got != want or k == 0:
@@ -160,9 +170,29 @@ def c14_classify(r, res):
     return None
 
 
+def c14_variants(tier):
+    """Layout variants of the driver: 0..15 non-trapping statements in front of each failing
+    operation shift code sizes and alignments; the report must not depend on them."""
+    s = seed()
+    vdir = os.path.join(tb.TB, "variants")
+    os.makedirs(vdir, exist_ok=True)
+    C14_VARIANTS.clear()
+    n = 4 if tier == "quick" else 24
+    for k in range(n):
+        rng = tb.stream(s, "C14", k, "layout")
+        pads = [rng.randrange(16) for _ in range(5)]
+        name = "trapio_v%d" % k
+        path = os.path.join(vdir, name + ".dora")
+        mt.make_variant(path, pads)
+        C14_VARIANTS[name] = path
+    return dict(C14_VARIANTS)
+
+
 def c14(tier):
     t0 = time.time()
-    exes = tb.build_executables(["trapio"], ["swiper", "copy", "sweep"], ["cannon", "boots"], sim=False, real=True)
+    variants = c14_variants(tier)
+    exes = tb.build_executables(["trapio"] + sorted(variants), ["swiper", "copy", "sweep"], ["cannon", "boots"], sim=False, real=True, sources=variants,
+                                only=lambda d, gc, cg: d == "trapio" or gc == "swiper")
     build_interposer()
     budget = tier_budget(tier, 45, 900)
     s = seed()
@@ -297,7 +327,8 @@ def c14_replay(path):
     obj = json.load(open(path))
     r = obj["run"]
     d, gc, cg, kind = r["exe"]
-    exes = tb.build_executables([d], [gc], [cg], sim=False, real=True)
+    variants = c14_variants(os.environ.get("VERIF_TIER", "quick") if not d.startswith("trapio_v") or int(d[8:]) < 4 else "thorough")
+    exes = tb.build_executables([d], [gc], [cg], sim=False, real=True, sources=variants)
     build_interposer()
     res = c14_execute(r, exes)
     v = c14_classify(r, res)
